@@ -18,7 +18,8 @@ def main():
         return 3
     if a.replay:
         return mod.replay(a.replay)
-    run = Run(a.pid, a.tier, seed)
+    from props.registry import CLAIMS
+    run = Run(a.pid, a.tier, seed, level=CLAIMS.get(a.pid, {}).get("category", "other"))
     try:
         mod.run(run)
         return run.finish(getattr(mod, "falsify", None) and (lambda g, info: mod.falsify(run, g, info)))
